@@ -103,6 +103,9 @@ def _match_display_names_exact(
             is_multi_value = any(
                 k == feature_key and i != idx for _, (k, i) in display_name_to_key.items()
             )
+            # never replace a match made earlier: the replaced column would be lost
+            if feature_key in mapping or idx in multi_value_matches.get(feature_key, {}):
+                continue
             if is_multi_value:
                 if feature_key not in multi_value_matches:
                     multi_value_matches[feature_key] = {}
@@ -172,6 +175,9 @@ def _match_display_names_fuzzy(
             is_multi_value = any(
                 k == feature_key and i != idx for _, (k, i) in display_name_to_key.items()
             )
+            # never replace a match made earlier: the replaced column would be lost
+            if feature_key in mapping or idx in multi_value_matches.get(feature_key, {}):
+                continue
             if is_multi_value:
                 if feature_key not in multi_value_matches:
                     multi_value_matches[feature_key] = {}
@@ -200,6 +206,28 @@ def _map_remaining_to_self(remaining_props: list[str]) -> dict[str, str]:
         Dict mapping each prop -> itself (e.g., {"custom_col": "custom_col"})
     """
     return {prop: prop for prop in remaining_props}
+
+
+def _merge_custom_mapping(
+    mapping: dict[str, str | list[str]], custom_mapping: dict[str, str]
+) -> None:
+    """Add the self-mapped custom properties to the mapping without losing a column.
+
+    If a custom property is spelled exactly like a key that an earlier step gave to
+    a differently named column, the exactly named column gets the key and the
+    displaced column(s) become custom properties themselves.
+
+    Args:
+        mapping: Mapping dict to update (modified in place)
+        custom_mapping: Dict mapping each remaining prop -> itself
+    """
+    work = list(custom_mapping)
+    while work:
+        prop = work.pop(0)
+        displaced = mapping.get(prop)
+        mapping[prop] = prop
+        if displaced is not None and displaced != prop:
+            work.extend(displaced if isinstance(displaced, list) else [displaced])
 
 
 def build_standard_fields(
@@ -313,7 +341,7 @@ def infer_node_name_map(
 
     # Step 5: Map remaining properties to themselves (custom properties)
     custom_mapping = _map_remaining_to_self(props_left)
-    mapping.update(custom_mapping)
+    _merge_custom_mapping(mapping, custom_mapping)
 
     return mapping
 
@@ -375,6 +403,6 @@ def infer_edge_name_map(
 
     # Step 5: Map remaining properties to themselves (custom properties)
     custom_mapping = _map_remaining_to_self(props_left)
-    mapping.update(custom_mapping)
+    _merge_custom_mapping(mapping, custom_mapping)
 
     return mapping
